@@ -46,6 +46,13 @@ func propTable() map[string]*PropSpec {
 				if me == 1 && (to == 0 || to == 2 || to == 3) {
 					quick = append(quick, c)
 				}
+				// the ordered committee is not sorted by id
+				p := rc(fmt.Sprintf("C18_NodeLeader/me=%d/timeouts=%d/weights=0/idperm=1", me, to), ".", "C18_NodeLeader", map[string]int{"me": me, "timeouts": to, "weights": 0, "idperm": 1})
+				p.RequireReach = []string{"C18.node.accepted_current_view"}
+				thorough = append(thorough, p)
+				if me == 1 && (to == 0 || to == 3) {
+					quick = append(quick, p)
+				}
 			}
 		}
 		t["C18"] = &PropSpec{ID: "C18", Quick: quick, Thorough: thorough,
